@@ -581,6 +581,11 @@ def send_sym(sym, ad, k=0):
         tags = tags + [["43", "Y"]]
         if s != "missing" and t != "4":
             tags.append(["34", str(sv)])
+    if sym.get("stale"):
+        # a NEW message that carries a MsgSeqNum of its own (a decoded message re-submitted), optionally with
+        # PossDupFlag=N: it is not a retransmission and must get a freshly allocated number
+        sv = {"nout": ad.nout, "below": ad.nout - 1, "above": ad.nout + 3}.get(sym.get("seq", "below"), ad.nout - 1)
+        tags = tags + ([["43", "N"]] if sym["stale"] == "N" else []) + [["34", str(sv)]]
     return [1, [t, tags]]
 
 
